@@ -116,8 +116,27 @@ def template(ctx: Ctx, f: FuncInfo, e: Optional[ast.AST], _depth: int = 0) -> Op
         t = ctx.an.spliced_at[id(e)]
         rets = [r.value for r in ctx.an.scope(t)._own_nodes() if isinstance(r, ast.Return) and r.value is not None]
         ts = [template(ctx, t, r, _depth + 1) for r in rets]
-        if ts and all(x is not None and x == ts[0] for x in ts) and not any(k == "expr" and v in ctx.an.scope(t).params for k, v in ts[0]):
-            return ts[0]
+        if ts and all(x is not None and x == ts[0] for x in ts):
+            if not any(k == "expr" and v in ctx.an.scope(t).params for k, v in ts[0]):
+                return ts[0]
+            # holes that are parameters of the helper (never re-bound there): what this call passes for them
+            from ..cfg import bind_args
+            env = bind_args(e, t, f, None)
+            tsc = ctx.an.scope(t)
+            out = []
+            for k, v in ts[0]:
+                if k == "expr" and v in tsc.params:
+                    if v not in env or v in tsc.defs and any(h[0] != "param" for h in tsc.defs[v]):
+                        out = None
+                        break
+                    arg = env[v][1]
+                    sub = template(ctx, f, arg, _depth + 1) if isinstance(arg, (ast.JoinedStr, ast.Constant)) or _is_str_local(ctx, f, arg) or (
+                        isinstance(arg, ast.Name) and ctx.vals.const(f, arg) is not None) else None
+                    out += sub if sub is not None else [("expr", ctx.vals.canon(f, arg))]
+                else:
+                    out.append((k, v))
+            if out is not None:
+                return merge(out)
     return [("expr", ctx.vals.canon(f, e))]
 
 
